@@ -7,7 +7,7 @@ THEOREMS = ["spread_sound", "spread_upper", "spread_attained", "dissolve_labels_
 RULE = ("observation / mask patterns on shapes up to 2x3 (exhaustive over {nodata, a, b} x mask), random rasters to 8x8 "
         "(12x12 thorough) with integer frictions 1..3 on 3-4-5 cells (all float32 sums exact) through gis_utils.spread2d, "
         "compared with the model and with an independent Dijkstra; geographic grids on both hemispheres and both "
-        "y-orientations against a float Dijkstra; regions.region_dissolve on random label maps (3-4-5 cells: compared with the model, by labels and by locations; unit cells: oracle); non-trivial = some cell "
+        "y-orientations against a float Dijkstra; projected grids whose cell sizes are no float32 numbers (0.3 x 0.7, 1/3, ...): at most 9 queue entries per cell, distances against a float Dijkstra; float64 observations with NaN as the nodata value (group rand-int-nan); regions.region_dissolve on random label maps (3-4-5 cells: compared with the model, by labels and by locations; unit cells: oracle); non-trivial = some cell "
         "is filled from a source at distance > 0")
 ASSUMPTIONS = ["costs are integers in the model (3-4-5 cells x integer friction); geographic / general float costs are "
                "checked by the oracle only (float32 accumulation compared to 1e-5 relative)",
